@@ -233,7 +233,9 @@ def execute(case, result):
         if not any(same(t, a) for a in accept):
             lim = ref.limited(ref.floored(v), s)
             clause = "reference"
-            if not (ref.min <= F(t) <= ref.max):
+            if isinstance(t, float) and t != t:
+                clause = "not a number"
+            elif not (ref.min <= F(t) <= ref.max):
                 clause = "outside [minimum, maximum]"
             elif lim != ref.floored(v):
                 clause = "limit priority / supply window"
